@@ -247,3 +247,21 @@ add("C34", "jax analytic prior keeps the full Hamiltonian", "nifty/re/evidence_l
 add("C34", "classic prior term forgets the mean", "nifty/cl/evidence_lower_bound.py", "prior_term = Field.scalar(0.5 * (trace_inv_total + prior_mean_sq))", "prior_term = Field.scalar(0.5 * trace_inv_total)", "R34.3")
 add("C34", "classic lower bound adds the lower error", "nifty/cl/evidence_lower_bound.py", 'elbo_lw = elbo_mean - elbo_var.sqrt() - stats["lower_error"]', 'elbo_lw = elbo_mean - elbo_var.sqrt() + stats["lower_error"]', "R34.3")
 VARIANTS = V
+
+add("C20", "wiener filter dereferences the None default", "nifty/re/evi.py", "    draw_linear_kwargs = {} if draw_linear_kwargs is None else draw_linear_kwargs\n", "", "R20.2")
+add("C20", "signal-space operator without the prior term", "nifty/re/evi.py", "            return forward_lin_T(n_inv(forward_lin(tangents)))[0] + tangents", "            return forward_lin_T(n_inv(forward_lin(tangents)))[0]", "R20.1")
+add("C20", "information source without noise weighting", "nifty/re/evi.py", "        (j,) = forward_lin_T(n_inv(data))", "        (j,) = forward_lin_T(data)", "R20.1")
+add("C20", "data-space operator without the noise", "nifty/re/evi.py", "            return RR_dagger_d + noise_covariance(tangents)", "            return RR_dagger_d", "R20.1")
+add("C20", "transpose not conjugated", "nifty/re/evi.py", "    forward_lin_T = _functional_conj(forward_lin_T)\n\n    if signal_space:", "\n    if signal_space:", "R20.1")
+add("C20", "classic curvature uses S instead of its inverse", "nifty/cl/library/wiener_filter_curvature.py", "    Sinv = S.inverse", "    Sinv = S", "R20.3")
+add("C20", "classic curvature sandwiches N instead of its inverse", "nifty/cl/library/wiener_filter_curvature.py", "M = SandwichOperator.make(R, N.inverse)", "M = SandwichOperator.make(R, N)", "R20.3")
+VARIANTS = V
+
+add("C27", "sample list save refuses to overwrite under save_strategy all", "nifty/cl/minimization/optimize_kl.py", "                    overwrite=True)\n\n            if _MPI_master(comm(iglobal)):", "                    overwrite=save_strategy == 'latest')\n\n            if _MPI_master(comm(iglobal)):", "R27.8")
+add("C27", "callback arity from the code object", "nifty/cl/minimization/optimize_kl.py", "    from inspect import signature\n    return len(signature(func).parameters)",
+    "    code = getattr(func, '__code__', None)\n    if code is not None:\n        return code.co_argcount\n    from inspect import signature\n    return len(signature(func).parameters)", "R27.9")
+VARIANTS = V
+
+add("C21", "seed preparation starts at the resume index", "nifty/cl/minimization/optimize_kl.py", "    for iglobal in range(total_iterations):\n        if not fresh_stochasticity(iglobal):", "    for iglobal in range(initial_index, total_iterations):\n        if not fresh_stochasticity(iglobal):", "R21.9")
+add("C25", "seed preparation starts at the resume index", "nifty/cl/minimization/optimize_kl.py", "    for iglobal in range(total_iterations):\n        if not fresh_stochasticity(iglobal):", "    for iglobal in range(initial_index, total_iterations):\n        if not fresh_stochasticity(iglobal):", "R25.5")
+VARIANTS = V
